@@ -207,3 +207,46 @@ def run(tier, seed):
         need['histories_CH%d' % L] = 10
     return common.finish(PROP, tier, seed, total, RULE, t0, ASSUME, min_events=need,
                          extra={'builds': [v for v, _ in variants]})
+
+
+def rejudge(case, recs, res, variant, v):
+    typ = case.type
+    fam = 'histogram_const' if typ.startswith('C') else 'Histogram'
+    L = int(typ.lstrip('CH'))
+    model = {}
+    by_op = {}
+    for r in recs:
+        by_op.setdefault(r.op, []).append(r)
+    for i, o in enumerate(case.ops):
+        t = o.split()
+        code = t[0]
+        vals = lambda toks: [common.h2f(x) for x in toks]
+        if code == 'HR':
+            r = hm.from_ranges(vals(t[2:]), L)
+            if r[0] == 'ok':
+                model[t[1]] = r[1]
+        elif code == 'HA':
+            for x in vals(t[2:]):
+                model[t[1]].add(x)
+        elif code in ('M', 'H+'):
+            other = model[t[2]].clone()
+            ok = model[t[1]].merge(other)
+            panicked = any(r.kind == 'p' for r in by_op.get(i, []))
+            if ok and panicked:
+                res.violation(PROP, '%s:unexpected-panic' % fam, 'op %d (%s) panicked' % (i, o), case, variant)
+            if not ok and not panicked:
+                res.violation(PROP, '%s:no-panic-on-edge-mismatch' % fam, 'op %d (%s) did not panic' % (i, o), case, variant)
+        elif code == 'H*':
+            model[t[1]].mul(int(t[2]))
+        elif code == 'HZ':
+            model[t[1]].reset()
+        elif code == 'K':
+            model[t[1]] = model[t[2]].clone()
+        elif code == 'O':
+            oo = [r for r in by_op.get(i, []) if r.kind == 'o']
+            if oo:
+                vv = []
+                hm.compare_obs(oo[0].kv, model[t[1]], vv)
+                res.count('evaluations')
+                for sig, msg in vv[:2]:
+                    res.violation(PROP, '%s:%s' % (fam, sig), msg, case, variant)
